@@ -30,22 +30,35 @@ TIME_EXPANSIONS = [1.0, 1.0, 10.0, 0.5, 2.5, 0.1]
 AUDIO_FILES = ["a.wav", "sub dir/b.wav", "ünï/c.wav"]
 
 
-def wav_header(sr, ch, frames) -> bytes:
-    block = ch * 2
+def wav_header(sr, ch, frames, bits=16) -> bytes:
+    width = bits // 8
+    block = ch * width
     size = frames * block
     return struct.pack(
         "<4sI4s4sIHHIIHH4sI",
         b"RIFF", (size + 36) & 0xFFFFFFFF, b"WAVE", b"fmt ", 16, 1, ch, sr,
-        sr * block, block, 16, b"data", size & 0xFFFFFFFF,
+        (sr * block) & 0xFFFFFFFF, block, bits, b"data", size & 0xFFFFFFFF,
     )
 
 
-def sample_values(salt, first, count, ch) -> np.ndarray:
-    """int16 samples, shape (count, ch): a pure function of its arguments."""
+def sample_values(salt, first, count, ch, bits=16) -> np.ndarray:
+    """Signed PCM samples of the given width as int64, shape (count, ch): a
+    pure function of its arguments."""
     f = np.arange(first, first + count, dtype=np.uint64)[:, None]
     c = np.arange(ch, dtype=np.uint64)[None, :]
-    v = ((f * 7 + c * 13 + np.uint64(salt)) * np.uint64(2654435761)) % np.uint64(65536)
-    return (v.astype(np.int64) - 32768).astype("<i2")
+    span = np.uint64(1 << bits)
+    v = ((f * 7 + c * 13 + np.uint64(salt)) * np.uint64(2654435761)) % span
+    return v.astype(np.int64) - (1 << (bits - 1))
+
+
+def pcm_bytes(values: np.ndarray, bits: int) -> bytes:
+    if bits == 16:
+        return values.astype("<i2").tobytes()
+    if bits == 32:
+        return values.astype("<i4").tobytes()
+    raw = values.astype("<i4").tobytes()  # 24 bit: drop the top byte
+    arr = np.frombuffer(raw, dtype=np.uint8).reshape(-1, 4)[:, :3]
+    return arr.tobytes()
 
 
 def _decode(text, shape=None):
@@ -99,14 +112,17 @@ class AudioSim(AoefSim):
         st = self.afiles[f]
         if st["broken"]:
             return None
-        n = min(st["header"], st["payload_bytes"] // (st["ch"] * 2))
+        n = min(st["header"], st["payload_bytes"] // (st["ch"] * st["bits"] // 8))
         return st["frames"][:n]
 
     def write_file(self, f):
         st = self.afiles[f]
         path = self.apath(f)
         os.makedirs(os.path.dirname(path), exist_ok=True)
-        raw = wav_header(st["sr"], st["ch"], st["header"]) + st["frames"].tobytes()[: st["payload_bytes"]]
+        raw = (
+            wav_header(st["sr"], st["ch"], st["header"], st["bits"])
+            + pcm_bytes(st["frames"], st["bits"])[: st["payload_bytes"]]
+        )
         if st["broken"]:
             raw = raw[: st["broken"]]
         with open(path, "wb") as fp:
@@ -138,12 +154,14 @@ class AudioSim(AoefSim):
     # ------------------------------------------------------------ file ops
 
     def do_create(self, op):
-        frames = sample_values(op["salt"], 0, op["frames"], op["ch"])
+        bits = op.get("bits", 16)
+        frames = sample_values(op["salt"], 0, op["frames"], op["ch"], bits)
         self.afiles[op["f"]] = {
             "sr": op["sr"], "ch": op["ch"], "header": op["frames"],
-            "salt": op["salt"], "frames": frames,
-            "payload_bytes": frames.nbytes, "broken": 0,
+            "salt": op["salt"], "frames": frames, "bits": bits,
+            "payload_bytes": frames.size * bits // 8, "broken": 0,
         }
+        self.probes.hit(f"file:pcm-{bits}")
         raw = self.write_file(op["f"])
         self.record(op, "ok", file=sha(raw))
         self.trace.append(("create", op["ch"], op["frames"] == 0))
@@ -159,7 +177,9 @@ class AudioSim(AoefSim):
         raw = self.write_file(op["f"])
         self.faults_fired.hit("file:truncated-payload")
         self.record(op, "ok", file=sha(raw))
-        self.trace.append(("truncate", st["payload_bytes"] % (st["ch"] * 2) != 0))
+        self.trace.append(
+            ("truncate", st["payload_bytes"] % (st["ch"] * st["bits"] // 8) != 0)
+        )
 
     def do_append(self, op):
         st = self.afiles.get(op["f"])
@@ -167,9 +187,9 @@ class AudioSim(AoefSim):
             return self.record(op, "skipped")
         # a torn payload is completed first (the copy resumed)
         have = len(st["frames"])
-        more = sample_values(st["salt"], have, op["frames"], st["ch"])
+        more = sample_values(st["salt"], have, op["frames"], st["ch"], st["bits"])
         st["frames"] = np.concatenate([st["frames"], more])
-        st["payload_bytes"] = st["frames"].nbytes
+        st["payload_bytes"] = st["frames"].size * st["bits"] // 8
         if op.get("rewrite_header", True):
             st["header"] = len(st["frames"])
             self.faults_fired.hit("file:grown")
@@ -383,7 +403,7 @@ class AudioSim(AoefSim):
         for o in sorted(o_c):
             want = np.zeros((n, st["ch"]))
             have = disk[o : o + n]
-            want[: len(have)] = have.astype(np.float64) / 32768.0
+            want[: len(have)] = have.astype(np.float64) / float(1 << (st["bits"] - 1))
             if np.array_equal(want, data):
                 ok_data = True
                 want_t = (o + np.arange(n)) / sr
@@ -457,7 +477,7 @@ class AudioSim(AoefSim):
         self.probes.hit("C15:load_recording-checked")
         shape = reply["shape"]
         data = _decode(reply["data"], tuple(shape))
-        want = disk.astype(np.float64) / 32768.0
+        want = disk.astype(np.float64) / float(1 << (st["bits"] - 1))
         if tuple(shape) != want.shape or not np.array_equal(want, data):
             self.violate(
                 "C15", "C15:data",
@@ -572,6 +592,7 @@ def draw_run_cfg(rng, focus, tier):
         "file_faults": rng.random() < 0.7,
         "p_boundary": rng.choice([0.2, 0.5, 0.8]),
         "relative": rng.random() < 0.4,
+        "bits": rng.choice([[16], [16], [16, 24, 32], [24], [32]]),
     }
 
 
@@ -595,7 +616,8 @@ def gen_ops(rng, cfg, seed_tag):
         frames = rng.choice([0, 1, 2, rng.randint(0, cfg["max_frames"]),
                              rng.randint(0, cfg["max_frames"])])
         ops.append({"op": "create", "f": f, "sr": sr, "ch": rng.choice(cfg["channels"]),
-                    "frames": frames, "salt": rng.randrange(1 << 16)})
+                    "frames": frames, "salt": rng.randrange(1 << 16),
+                    "bits": rng.choice(cfg["bits"])})
         files[f] = [sr, frames]
         return f
 
@@ -816,7 +838,8 @@ REAL_VS_STUB = {
 ASSUMPTIONS = [
     "sampling, not proof",
     "file model: whole frames visible to a reader = min(header frames, "
-    "payload bytes // block align) (measured against libsndfile 1.2.2)",
+    "payload bytes // block align) (measured against libsndfile 1.2.2); "
+    "PCM 16 / 24 / 32 bit, sample value / 2^(bits-1) is the expected float",
     "where float and exact-rational evaluation of floor(start*samplerate) / "
     "floor(duration*samplerate) disagree, either is accepted and the case is "
     "counted as ambiguous",
